@@ -1,6 +1,7 @@
 import CgtModel.Report
 import CgtModel.Spec
 import CgtModel.Fx
+import CgtModel.Dsl
 /-! Line protocol: token parsers and printers shared by all driver commands. -/
 namespace Cgt.Wire
 open Cgt
@@ -208,6 +209,80 @@ def showLoadErr : LoadErr → String
   | .invalidPeriod => "invalidPeriod"
   | .periodMismatch => "periodMismatch"
   | .nonPositiveRate c => s!"nonPositiveRate {c}"
+
+def hexVal (c : Char) : Option Nat :=
+  if '0' ≤ c ∧ c ≤ '9' then some (c.toNat - '0'.toNat)
+  else if 'a' ≤ c ∧ c ≤ 'f' then some (c.toNat - 'a'.toNat + 10)
+  else none
+
+/-- hex-encoded UTF-8 is decoded byte-wise to chars below 256 only when ASCII; the harness sends
+    code points as 6-hex-digit groups instead -/
+def unhex6 : List Char → Option (List Char)
+  | [] => some []
+  | a :: b :: c :: d :: e :: f :: rest =>
+    match hexVal a, hexVal b, hexVal c, hexVal d, hexVal e, hexVal f, unhex6 rest with
+    | some a, some b, some c, some d, some e, some f, some r =>
+      some (Char.ofNat (((((a * 16 + b) * 16 + c) * 16 + d) * 16 + e) * 16 + f) :: r)
+    | _, _, _, _, _, _, _ => none
+  | _ => none
+
+def hexDigit (n : Nat) : Char := if n < 10 then Char.ofNat (n + '0'.toNat) else Char.ofNat (n - 10 + 'a'.toNat)
+def hex6 (cs : List Char) : String :=
+  String.ofList (cs.flatMap (fun c =>
+    let n := c.toNat
+    [hexDigit (n / 1048576 % 16), hexDigit (n / 65536 % 16), hexDigit (n / 4096 % 16), hexDigit (n / 256 % 16), hexDigit (n / 16 % 16), hexDigit (n % 16)]))
+
+def showDDec (d : Dsl.DDec) : String := String.ofList (Dsl.showDec d)
+def showDAmt (a : Dsl.DAmt) : String := s!"{showDDec a.d}:{a.cur}"
+def showDTx (t : Dsl.DTx) : String :=
+  let body := match t.op with
+    | .buy q p f => s!"B,{showDDec q},{showDAmt p},{showDAmt f}"
+    | .sell q p f => s!"S,{showDDec q},{showDAmt p},{showDAmt f}"
+    | .dividend v x => s!"D,{showDAmt v},{showDAmt x},0"
+    | .accumulation q v x => s!"A,{showDDec q},{showDAmt v},{showDAmt x}"
+    | .capreturn q v f => s!"C,{showDDec q},{showDAmt v},{showDAmt f}"
+    | .split r => s!"X,{showDDec r},0,0"
+    | .unsplit r => s!"U,{showDDec r},0,0"
+  s!"{t.y}-{t.m}-{t.d},{t.ticker},{body}"
+
+def parseDDec? (s : String) : Option Dsl.DDec :=
+  match Dsl.pDecimal s.toList with
+  | some (d, []) => some d
+  | _ => none
+
+def parseDAmt? (s : String) : Option Dsl.DAmt :=
+  match s.splitOn ":" with
+  | [a] => (parseDDec? a).map (fun d => ⟨d, "GBP"⟩)
+  | [a, c] => (parseDDec? a).map (fun d => ⟨d, c⟩)
+  | _ => none
+
+def parseDTx? (s : String) : Option Dsl.DTx :=
+  match s.splitOn "," with
+  | [dt, tk, k, a, b, c] =>
+    match dt.splitOn "-" with
+    | [y, m, d] =>
+      match y.toNat?, m.toNat?, d.toNat? with
+      | some y, some m, some d =>
+        let op? : Option Dsl.DOp :=
+          match k with
+          | "B" => match parseDDec? a, parseDAmt? b, parseDAmt? c with | some a, some b, some c => some (.buy a b c) | _, _, _ => none
+          | "S" => match parseDDec? a, parseDAmt? b, parseDAmt? c with | some a, some b, some c => some (.sell a b c) | _, _, _ => none
+          | "D" => match parseDAmt? a, parseDAmt? b with | some a, some b => some (.dividend a b) | _, _ => none
+          | "A" => match parseDDec? a, parseDAmt? b, parseDAmt? c with | some a, some b, some c => some (.accumulation a b c) | _, _, _ => none
+          | "C" => match parseDDec? a, parseDAmt? b, parseDAmt? c with | some a, some b, some c => some (.capreturn a b c) | _, _, _ => none
+          | "X" => (parseDDec? a).map .split
+          | "U" => (parseDDec? a).map .unsplit
+          | _ => none
+        op?.map (fun op => ⟨y, m, d, tk, op⟩)
+      | _, _, _ => none
+    | _ => none
+  | _ => none
+
+def showParseErr : Dsl.ParseErr → String
+  | .syntax n => s!"err syntax {n}"
+  | .invalidDate n => s!"err invalidDate {n}"
+  | .invalidCurrency n => s!"err invalidCurrency {n}"
+  | .invalidDecimal n => s!"err invalidDecimal {n}"
 
 def showCalcErr (l : List Tx) : CalcErr → String
   | .matcher e => showMErr l e
